@@ -92,6 +92,28 @@ class Closure:
 
 
 @dataclass
+class LoggerModel(ModelObject):
+    """a logging.Logger: emitting a message has no effect the contracts speak of; what the logging configuration is
+    (level, handlers) is not known, so queries about it return arbitrary values"""
+
+    _EMIT = ("debug", "info", "warning", "warn", "error", "critical", "exception", "log", "setLevel", "addHandler", "removeHandler")
+
+    def pv_getattr(self, cx, name):
+        if name in self._EMIT:
+            f = lambda interp, *a, **k: None  # noqa: E731
+        elif name == "isEnabledFor":
+            f = lambda interp, *a, **k: cx.fresh("logging_enabled", "bool")  # noqa: E731
+        elif name in ("getEffectiveLevel",):
+            f = lambda interp, *a, **k: cx.fresh("logging_level", "int")  # noqa: E731
+        else:
+            raise Unsupported(f"Logger attribute {name} is not modelled")
+        f._pyvc_model = True
+        return f
+
+
+LOGGER = LoggerModel()
+
+
 class LocalFunc:
     """a function defined inside a function (closes over the enclosing environment as it is at the call)"""
 
@@ -422,6 +444,8 @@ class Interp:
     def module_lookup(self, mod, name):
         g = mod.globals.get(name)
         if g is None:
+            if name == "__name__":
+                return mod.dotted
             return self.builtin(name)
         tag, val = g
         if tag == "func":
@@ -444,6 +468,8 @@ class Interp:
             key = (mod.dotted, name)
             if key in ms:
                 return ms[key][0]
+            if isinstance(val, ast.Call) and isinstance(val.func, ast.Attribute) and val.func.attr == "getLogger":
+                return LOGGER
             v = self.eval(val, {}, mod)
             if isinstance(v, (dict, list, set)):
                 ms[key] = (v, _snapshot(v))
@@ -580,6 +606,15 @@ class Interp:
         raise ReturnSignal(GeneratorRun(k, cx.ghost.pop("yields")))
 
     def do_raise(self, st, env, mod):
+        """an explicit ``raise`` statement of the code: a DELIBERATE stop (flag ``explicit``), as opposed to an exception
+        that escapes from inside an operation"""
+        try:
+            self._do_raise(st, env, mod)
+        except PyRaise as e:
+            e.explicit = True
+            raise
+
+    def _do_raise(self, st, env, mod):
         exc = st.exc
         if exc is None:
             raise Unsupported("bare raise")
@@ -989,6 +1024,8 @@ class Interp:
             return a - b
         if op == "|" and isinstance(a, set) and isinstance(b, set):
             return a | b
+        if op in ("&", "^") and isinstance(a, set) and isinstance(b, set):
+            return a & b if op == "&" else a ^ b
         if op in ("&", "|"):
             ka, kb = V.kind_of(a), V.kind_of(b)
             if ka == "bool" and kb == "bool":
